@@ -947,7 +947,8 @@ def _process_step_result_tick(
                 event=this_execution.event,
                 waiting_for_event=result.event_type,
                 requirements=result.requirements,
-                has_requirements=bool(len(result.requirements)),
+                has_requirements=bool(len(result.requirements))
+                or result.has_requirements,
                 resolved_event=None,
             )
             if existing is not None:
